@@ -521,7 +521,7 @@ Proof.
   destruct (n_cconf n0) as [cc|]; [|exact H0]. destruct (n_applied n0 <? c_index cc); [exact H0|].
   destruct (log_get (n_log n0) (n_applied n0)) as [e|]; [|eapply Q_trans; [exact H0|apply Q_fail]].
   eapply Q_trans; [exact H0|].
-  match goal with |- Q _ (if ?c then _ else _) => destruct c end; [apply Q_close_snapshot|].
+  match goal with |- Q _ (if ?c then _ else _) => destruct c end; [apply Q_refl|].
   eapply Q_trans; [apply Q_close_snapshot|]. eapply Q_trans; [|apply Q_reset].
   eapply Q_trans; [|apply Q_compact]. qtv.
 Qed.
